@@ -133,16 +133,67 @@ Fixpoint deep_equal (a b : value) {struct a} : bool :=
   | _, _ => false
   end.
 
+(* what `equal` does after its type switch found no case: nil check, then (since the fix in /repo)
+   element-wise comparison of sequences with `equal` itself, then reflect.DeepEqual.
+   equal_v is the whole of `equal` on two values (needed for the recursion on elements). *)
+Definition seq_items (v : value) : option (list value) :=
+  match v with VArr _ l => Some l | VNilArr _ => Some [] | _ => None end.
+
+Fixpoint equal_v (a b : value) {struct a} : outcome bool :=
+  let fix seq_eq (l1 l2 : list value) {struct l1} : outcome bool :=
+    match l1, l2 with
+    | [], [] => Ok true
+    | x :: r1, y :: r2 =>
+        match equal_v x y with
+        | Ok true => seq_eq r1 r2
+        | other => other
+        end
+    | _, _ => Ok false
+    end in
+  match a, b with
+  | VNum x, VNum y =>
+      match helper_num helper_case HEqual x y with
+      | Some (NRBool r) => Ok r
+      | Some NRDivZero => Fail EDivZero
+      | Some NRUnspec => Fail EUnspec
+      | Some _ => Fail EInvalidOp
+      | None => Ok false
+      end
+  | VStr x, VStr y =>
+      match helper_string_case HEqual with
+      | Some OEq => Ok (String.eqb x y)
+      | _ => Ok (deep_equal a b)
+      end
+  | _, _ =>
+      if is_nil a && is_nil b then Ok true
+      else match a with
+           | VArr _ l1 =>
+               match seq_items b with
+               | Some l2 => if Nat.eqb (List.length l1) (List.length l2) then seq_eq l1 l2 else Ok false
+               | None => Ok (deep_equal a b)
+               end
+           | VNilArr _ =>
+               match seq_items b with
+               | Some l2 => Ok (Nat.eqb (List.length l2) 0)
+               | None => Ok (deep_equal a b)
+               end
+           | _ => Ok (deep_equal a b)
+           end
+  end.
+
 (* the generated helpers: numeric table first, then the string case, then the fall-through *)
 Definition p_helper (h : helper) (a b : value) : outcome value :=
+  let fall :=
+    match helper_fallthrough h with
+    | FTNilSeqDeepEqual => match equal_v a b with Ok r => Ok (VBool r) | Fail e => Fail e end
+    | FTNilThenDeepEqual => Ok (VBool ((is_nil a && is_nil b) || deep_equal a b))
+    | _ => Fail EInvalidOp
+    end in
   match a, b with
   | VNum x, VNum y =>
       match helper_num helper_case h x y with
       | Some r => of_nres r
-      | None => match helper_fallthrough h with
-                | FTNilThenDeepEqual => Ok (VBool false)
-                | _ => Fail EInvalidOp
-                end
+      | None => fall
       end
   | VStr x, VStr y =>
       match helper_string_case h with
@@ -152,16 +203,9 @@ Definition p_helper (h : helper) (a b : value) : outcome value :=
       | Some OLe => Ok (VBool (str_leb x y))
       | Some OGe => Ok (VBool (str_leb y x))
       | Some OAdd => Ok (VStr (x ++ y))
-      | _ => match helper_fallthrough h with
-             | FTNilThenDeepEqual => Ok (VBool (deep_equal a b))
-             | _ => Fail EInvalidOp
-             end
+      | _ => fall
       end
-  | _, _ =>
-      match helper_fallthrough h with
-      | FTNilThenDeepEqual => Ok (VBool ((is_nil a && is_nil b) || deep_equal a b))
-      | _ => Fail EInvalidOp
-      end
+  | _, _ => fall
   end.
 
 Definition p_equal := p_helper HEqual.
